@@ -199,11 +199,38 @@ class Program:
             self.n = rng.randint(110, 280)  # quick tier: the occasional very long script (more than 100 / 256 steps)
         self.p_fault = rng.choice([0.0, 0.1, 0.17, 0.17, 0.3])
 
+    def sweep(self, sess):
+        """the same small volume taken from (or given to) every well of every labware, one call per labware with the
+        whole `labware.wells` matrix - many wells per call, on labware of different geometry, within one script"""
+        from ..sim.geom import enc
+        from ..sim.world import snap_down
+        rng, g = self.rng, self.gen
+        kind = rng.choice(["remove", "aspirate", "add", "dispense"])
+        out = []
+        for li, geo in enumerate(g.geos):
+            if geo.idrows * geo.cols > 400:
+                continue
+            cur = g.vols(sess, li)
+            if kind in ("remove", "aspirate"):
+                h = min((v - geo.vmin) / (geo.idrows if geo.trough else 1) for v in cur.values())
+            else:
+                h = min((geo.vmax - v) / (geo.idrows if geo.trough else 1) for v in cur.values())
+            v = snap_down(min(max(h, 0.0) * rng.uniform(0.1, 0.9), g.wl_max), g.regime)
+            wells = [[geo.well_id(r, c) for c in range(geo.cols)] for r in range(geo.idrows)]
+            out.append({"op": kind, "lab": li, "wells": wells, "volumes": enc(float(v)), "label": "sweep", "comps": None, "intent": "ok", "wnp": True})
+        return out
+
     def source(self, i, sess):
         if i >= self.n:
             return None
         rng = self.rng
         g = self.gen
+        if getattr(self, "queue", None):
+            return self.queue.pop(0)
+        if rng.random() < 0.02:
+            self.queue = self.sweep(sess)
+            if self.queue:
+                return self.queue.pop(0)
         r = rng.random()
         if r < 0.04:
             return g.gen_misc()
